@@ -8,6 +8,7 @@ where T is the type description understood by internal/verifdrv.Shape and D the 
 import json
 import math
 
+import vlib
 from vlib import cZ, cbool, clist, copt, cpair, cstr, run_driver
 
 ID = "C05"
@@ -81,15 +82,19 @@ def P(k):
     return {"k": k}
 
 
-def mkopts(optional=False, default=None, options=None, rng=None, string=False):
-    return {"optional": optional, "default": default, "options": options or [], "range": rng, "string": string}
+def mkopts(optional=False, default=None, options=None, rng=None, string=False, dep=None):
+    """dep: None | (negated, key) for optional=key / optional=!key (implies optional)"""
+    return {"optional": optional or dep is not None, "default": default, "options": options or [], "range": rng,
+            "string": string, "dep": dep}
 
 
 def render_tag(key, o, tagged=True):
     if not tagged:
         return ""
     segs = [key]
-    if o["optional"]:
+    if o.get("dep"):
+        segs.append("optional=%s%s" % ("!" if o["dep"][0] else "", o["dep"][1]))
+    elif o["optional"]:
         segs.append("optional")
     if o["default"] is not None:
         segs.append("default=" + o["default"])
@@ -179,8 +184,14 @@ def gen_elem_type(rng, depth, for_map):
         return gen_struct(rng, depth - 1, small=True)
     if r < 0.8 and depth > 0:
         return {"k": "ptr", "e": gen_struct(rng, depth - 1, small=True)}
-    if r < 0.9:
+    if r < 0.88:
         return {"k": "slice", "e": P(rng.choice(PRIMS))}
+    if r < 0.94 and depth > 0:
+        # depth >= 2 containers: [][]struct, map[string][]struct, []map[string]T
+        inner = gen_struct(rng, depth - 1, small=True)
+        if for_map:
+            return {"k": "slice", "e": inner}
+        return rng.choice([{"k": "slice", "e": inner}, {"k": "map", "e": inner}, {"k": "map", "e": P(rng.choice(PRIMS))}])
     if for_map:
         return {"k": "map", "e": P(rng.choice(PRIMS))}
     return P(rng.choice(PRIMS))
@@ -223,6 +234,14 @@ def gen_struct(rng, depth, small=False, keys=None, in_opt_anon=False):
             fs.append(field(name, key, t, mkopts(optional=rng.random() < 0.3)))
         else:
             fs.append(field(name, key, P("str"), mkopts(optional=True)))
+    # optional=dep / optional=!dep on a scalar member, depending on a sibling key of the same object
+    named = [f for f in fs if not f["anon"] and f["tag"]]
+    if len(named) >= 2 and not in_opt_anon and rng.random() < 0.12:
+        a, b = rng.sample(named, 2)
+        if deref(a["t"])["k"] in PRIMS and not a["o"].get("dep"):
+            a["o"]["optional"] = True
+            a["o"]["dep"] = (rng.random() < 0.4, b["key"])
+            a["tag"] = render_tag(a["key"], a["o"])
     return struct(fs)
 
 
@@ -308,6 +327,7 @@ def ill_typed(rng, t):
     return rng.choice([
         ["b", True], N(1), N(300), N("1.5"), S(rng.choice(strs)), A([]), A([N(1)]), A([["b", False]]),
         A([S(rng.choice(strs))]), A([O([("a", N(1))])]), A([A([N(1)])]), A([NULL]), O([]), O([("a", N(1))]),
+        S("[1,null,3]"), S("[[1]]"), S('["a",1]'), S("[true,null]"), S('[{"a":1}]'), S("[]"),
         O([("a", S(rng.choice(strs)))]), O([("k1", A([N(1)]))]), O([("k1", O([("a", N(1))]))]), O([("k1", NULL)]), NULL])
 
 
@@ -324,6 +344,8 @@ def gen_value(rng, t, o, mode, lenient=False):
         return gen_value(rng, t["e"], o, mode, lenient)
     if k in PRIMS:
         return gen_scalar(rng, k, o, lenient or bool(o and o["string"]), good=(mode == "good"))
+    if k == "slice" and rng.random() < (0.07 if mode == "good" else 0.15):
+        return from_string_slice(rng, t["e"], mode)
     if k == "slice":
         n = rng.choice([0, 1, 1, 2, 3])
         xs = []
@@ -363,6 +385,34 @@ def gen_value(rng, t, o, mode, lenient=False):
     raise ValueError(k)
 
 
+def from_string_slice(rng, et, mode):
+    """a slice given as a STRING holding a JSON array (fillSliceFromString): int/string/bool/pointer/struct elements,
+    null elements, nested arrays and ill-typed elements in mixed mode"""
+    k = deref(et)["k"]
+    n = rng.choice([0, 1, 2, 3])
+    xs = []
+    for _ in range(n):
+        if k == "bool":
+            x = rng.choice([["b", True], ["b", False], N(1), S("true")])
+        elif k == "str":
+            x = rng.choice([S(rng.choice(NONNUM)), S("5"), N(7)])
+        elif k in INT_KINDS:
+            lo, hi = int_bounds(k)
+            x = rng.choice([N(0), N(5), N(min(hi, 100)), S("3"), N(lo)])
+        elif k in ("f32", "f64"):
+            x = N(rng.choice(CANON_FLOATS))
+        elif k == "dur":
+            x = N(rng.choice([5, 1000000000]))
+        else:
+            x = rng.choice([O([("a", N(1))]), A([N(1)]), N(1)])
+        if mode == "mixed" and rng.random() < 0.3:
+            x = rng.choice([NULL, A([N(1)]), O([("a", N(1))]), ["b", True], N(300), S("abc"), N("1.5")])
+        xs.append(x)
+    if mode == "mixed" and rng.random() < 0.1:
+        return S("null")
+    return S(to_json(A(xs)))
+
+
 def flat_fields(t):
     """named fields reachable through embedded structs (they read the same object)."""
     out = []
@@ -388,6 +438,19 @@ def gen_obj(rng, t, mode):
             pairs.append((f["key"], NULL))
             continue
         pairs.append((f["key"], gen_value(rng, f["t"], o, mode)))
+    if mode == "good":
+        # optional=dep: both or neither; optional=!dep: exactly one
+        by_key = {f["key"]: f for f in flat_fields(t)}
+        for f in flat_fields(t):
+            dep = f["o"].get("dep")
+            if not dep:
+                continue
+            present = {kv[0] for kv in pairs}
+            want_self = (dep[1] in present) != dep[0]
+            if want_self and f["key"] not in present:
+                pairs.append((f["key"], gen_value(rng, f["t"], f["o"], mode)))
+            elif not want_self and f["key"] in present:
+                pairs = [kv for kv in pairs if kv[0] != f["key"]]
     if rng.random() < 0.1:
         pairs.append(("extraKey", rng.choice([N(1), S("x"), O([]), NULL])))
     rng.shuffle(pairs)
@@ -515,6 +578,16 @@ def conf_doc(rng, t, d):
     return d
 
 
+def has_null(d):
+    if d[0] == "n":
+        return True
+    if d[0] == "a":
+        return any(has_null(x) for x in d[1])
+    if d[0] == "o":
+        return any(has_null(kv[1]) for kv in d[1])
+    return False
+
+
 def has_empty_array(d):
     if d[0] == "a":
         return not d[1] or any(has_empty_array(x) for x in d[1])
@@ -524,7 +597,7 @@ def has_empty_array(d):
 
 
 def mkcase(rng, shape, doc, label, with_yaml=True, with_conf=True):
-    c = {"shape": shape, "doc": doc, "json": to_json(doc), "yaml": "", "conf": "", "cdoc": None, "keys": [], "label": label}
+    c = {"shape": shape, "doc": doc, "json": to_json(doc), "yaml": "", "conf": "", "cyaml": "", "cdoc": None, "keys": [], "label": label}
     if with_yaml and yaml_ok(doc):
         c["yaml"] = to_yaml(doc)
     if with_conf and not has_empty_array(doc) and all(f["tag"] for f in all_named(shape)):
@@ -532,6 +605,8 @@ def mkcase(rng, shape, doc, label, with_yaml=True, with_conf=True):
         if cd is not None:
             c["cdoc"] = cd
             c["conf"] = to_json(cd)
+            if yaml_ok(cd) and not has_null(cd):
+                c["cyaml"] = to_yaml(cd)
     ks = [kv[0] for kv in (c["cdoc"] or doc)[1]][:4]
     c["keys"] = ks + [rng.choice(["user_name", "UserName", "userName", "max_conns", "a_b_c", "x1_y", "ID", "node id", "a-b", "Ab_cd9"])]
     return c
@@ -611,7 +686,103 @@ def directed(rng):
     one(P("str"), mkopts(options=["a", "b"]), O([("v", S("c"))]), "options")
     one(P("str"), mkopts(options=["a", "b"]), O([("v", S("a"))]), "options")
     one(P("int"), mkopts(options=["1", "2"]), O([("v", N(3))]), "options")
+    # optional=dep / optional=!dep (D13: the range must survive the resolution of the optional flag)
+    def two(o, doc, label, t=None):
+        shape = struct([field("V", "v", t or P("int"), o), field("B", "b", P("int"), mkopts(optional=True))])
+        out.append(mkcase(rng, shape, doc, ["directed", label]))
+    r15 = (1, True, 5, True)
+    two(mkopts(dep=(False, "b"), rng=r15), O([("v", N(7)), ("b", N(1))]), "dep")
+    two(mkopts(dep=(False, "b"), rng=r15), O([("v", N(3)), ("b", N(1))]), "dep")
+    two(mkopts(dep=(False, "b"), rng=r15), O([]), "dep")
+    two(mkopts(dep=(False, "b"), rng=r15), O([("v", N(3))]), "dep")
+    two(mkopts(dep=(False, "b"), rng=r15), O([("b", N(1))]), "dep")
+    two(mkopts(dep=(True, "b"), rng=r15), O([("v", N(7))]), "dep")
+    two(mkopts(dep=(True, "b"), rng=r15), O([("v", N(3))]), "dep")
+    two(mkopts(dep=(True, "b"), rng=r15), O([("b", N(1))]), "dep")
+    two(mkopts(dep=(True, "b"), rng=r15), O([("v", N(3)), ("b", N(1))]), "dep")
+    two(mkopts(dep=(True, "b"), rng=r15), O([]), "dep")
+    two(mkopts(dep=(False, "b"), options=["1", "2"]), O([("v", N(7)), ("b", N(1))]), "dep")
+    two(mkopts(dep=(False, "b"), default="4", rng=r15), O([]), "dep")
+    # slices given as a string holding a JSON array (fillSliceFromString)
+    one({"k": "slice", "e": P("int")}, None, O([("v", S("[1,2,3]"))]), "fromstring")
+    one({"k": "slice", "e": P("int")}, None, O([("v", S("[1,null,3]"))]), "fromstring")
+    one({"k": "slice", "e": P("int8")}, None, O([("v", S("[300]"))]), "fromstring")
+    one({"k": "slice", "e": P("str")}, None, O([("v", S('["a",1]'))]), "fromstring")
+    one({"k": "slice", "e": P("bool")}, None, O([("v", S("[true,1]"))]), "fromstring")
+    one({"k": "slice", "e": {"k": "ptr", "e": P("int")}}, None, O([("v", S("[1,2]"))]), "fromstring")
+    one({"k": "slice", "e": {"k": "ptr", "e": P("int")}}, None, O([("v", S("null"))]), "fromstring")
+    one({"k": "slice", "e": {"k": "slice", "e": P("int")}}, None, O([("v", S("[[1]]"))]), "fromstring")
+    one({"k": "slice", "e": inner}, None, O([("v", S('[{"a":1}]'))]), "fromstring")
+    one({"k": "slice", "e": P("int")}, None, O([("v", S("null"))]), "fromstring")
+    one({"k": "slice", "e": P("int")}, None, O([("v", S("[]"))]), "fromstring")
+    one({"k": "slice", "e": P("int")}, None, O([("v", S("abc"))]), "fromstring")
     return out
+
+
+# ----------------------------------------------------------------------------- known findings (KNOWN_FINDINGS.txt)
+KNOWN_CLASSES = {"spec_mask_dur": "options_range_unenforced_duration", "spec_mask_slice": "options_range_unenforced_slice_elem",
+                 "spec_mask_map": "options_range_unenforced_map_elem", "spec_mask_default": "options_range_unenforced_default"}
+R15 = (1, True, 5, True)
+
+
+def known_templates():
+    """(class, type, options, document): a value outside the declared options=/range= at a position where the code
+    does not enforce them; the property (spec_ok) rejects the accepted struct, the model reproduces the code"""
+    sl = lambda k: {"k": "slice", "e": P(k)}
+    mp = lambda k: {"k": "map", "e": P(k)}
+    return [
+        ("options_range_unenforced_duration", P("dur"), mkopts(options=["1s", "2s"]), O([("v", S("3s"))])),
+        ("options_range_unenforced_duration", P("dur"), mkopts(rng=R15), O([("v", S("7s"))])),
+        ("options_range_unenforced_duration", {"k": "ptr", "e": P("dur")}, mkopts(options=["1s", "2s"]), O([("v", S("5m"))])),
+        ("options_range_unenforced_slice_elem", sl("str"), mkopts(options=["a", "b"]), O([("v", A([S("c")]))])),
+        ("options_range_unenforced_slice_elem", sl("int"), mkopts(options=["1", "2"]), O([("v", A([N(1), N(3)]))])),
+        ("options_range_unenforced_slice_elem", sl("int"), mkopts(rng=R15), O([("v", A([N(7)]))])),
+        ("options_range_unenforced_slice_elem", sl("uint8"), mkopts(rng=R15), O([("v", A([N(2), N(9)]))])),
+        ("options_range_unenforced_map_elem", mp("str"), mkopts(options=["a", "b"]), O([("v", O([("k1", S("c"))]))])),
+        ("options_range_unenforced_map_elem", mp("int"), mkopts(rng=R15), O([("v", O([("k1", N(7))]))])),
+        ("options_range_unenforced_map_elem", mp("int"), mkopts(options=["1", "2"]), O([("v", O([("ab", N(1)), ("k1", N(3))]))])),
+        ("options_range_unenforced_default", P("int"), mkopts(default="7", rng=R15), O([])),
+        ("options_range_unenforced_default", P("str"), mkopts(default="c", options=["a", "b"]), O([])),
+        ("options_range_unenforced_default", P("uint16"), mkopts(default="9", options=["1", "2"]), O([("other", N(1))])),
+    ]
+
+
+def known_case(rng, tpl):
+    cls, t, o, doc = tpl
+    shape = struct([field("V", "v", t, o)])
+    return mkcase(rng, shape, doc, ["known", cls], with_yaml=False, with_conf=False)
+
+
+# ----------------------------------------------------------------------------- conf: nested containers, depth >= 2
+CONF_KEYS = ["userName", "maxConns", "nodeId", "logLevel", "retryCount", "dbHost"]
+
+
+def confnest_case(rng):
+    """lists of lists of structs, maps of lists of structs, lists of maps: every struct level is re-spelled
+    (snake_case / UpperCamel / lowerCamel) on the document side; loaded as JSON and as YAML"""
+    for _ in range(20):
+        keys = list(CONF_KEYS)
+        rng.shuffle(keys)
+        leaf = struct([field("L%d" % i, keys.pop(), P(rng.choice(["int", "str", "bool", "uint16", "int64"])),
+                             mkopts(optional=rng.random() < 0.3)) for i in range(rng.randint(1, 2))])
+        mid = rng.choice([
+            {"k": "slice", "e": {"k": "slice", "e": leaf}},
+            {"k": "map", "e": {"k": "slice", "e": leaf}},
+            {"k": "slice", "e": {"k": "map", "e": leaf}},
+            {"k": "slice", "e": {"k": "slice", "e": {"k": "ptr", "e": leaf}}},
+            {"k": "map", "e": {"k": "map", "e": P("int")}},
+            {"k": "slice", "e": struct([field("M0", keys.pop(), {"k": "slice", "e": leaf})])},
+        ])
+        shape = struct([field("T0", keys.pop(), mid), field("T1", keys.pop(), P("str"), mkopts(optional=True))])
+        doc = gen_obj(rng, shape, "good")
+        c = mkcase(rng, shape, doc, ["confnest"])
+        if c["conf"] and c["conf"] != c["json"]:
+            return c
+    return c
+
+
+def required_map_absent_UNUSED(rng):
+    return None
 
 
 # ----------------------------------------------------------------------------- httpc -> httpx round trip
@@ -725,7 +896,8 @@ def wild_doc(rng, depth):
     r = rng.random()
     if depth <= 0 or r < 0.45:
         return rng.choice([NULL, ["b", True], N(1), N(300), N("1.5"), N("1e400"), S("abc"), S("5"), S("1s"), S("[1,2]"),
-                           S("[null]"), S('{"a":1}'), S("null"), S("[[1]]"), S("")])
+                           S("[null]"), S('{"a":1}'), S("null"), S("[[1]]"), S(""), S("[1,null,3]"), S('["a",null]'),
+                           S("[true,null]"), S('[{"a":1},null]'), S("[[1],null]"), S('[1,"x",true,{},[]]')])
     if r < 0.7:
         return A([wild_doc(rng, depth - 1) for _ in range(rng.randint(0, 3))])
     return O([(k, wild_doc(rng, depth - 1)) for k in rng.sample(["a", "b", "k1", "zz"], rng.randint(0, 3))])
@@ -776,6 +948,10 @@ def required_map_absent(rng):
 # ----------------------------------------------------------------------------- generate
 def generate(rng, tier, n):
     cases = directed(rng)
+    if tier != "search":
+        tpls = known_templates()
+        for tpl in rng.sample(tpls, 8):          # small dedicated stream of known findings (classified, never new)
+            cases.append(known_case(rng, tpl))
     depth = 2
     while len(cases) < n:
         r0 = rng.random()
@@ -784,6 +960,9 @@ def generate(rng, tier, n):
             continue
         if r0 < 0.24:
             cases.append(rt_case(rng))
+            continue
+        if r0 < 0.30:
+            cases.append(confnest_case(rng))
             continue
         shape = gen_struct(rng, depth)
         r = rng.random()
@@ -799,7 +978,7 @@ def search(rng, problems):
 
 def drive(cases, tier):
     m_in = [{"shape": c["shape"], "json": c["json"], "yaml": c["yaml"]} for c in cases]
-    c_in = [{"shape": c["shape"], "conf": c["conf"], "keys": c["keys"]} for c in cases]
+    c_in = [{"shape": c["shape"], "conf": c["conf"], "cyaml": c.get("cyaml", ""), "keys": c["keys"]} for c in cases]
     mo, log1 = run_driver("./lib/mapping", m_in, name="C05m_" + tier, timeout=DRIVER_TIMEOUT)
     if mo is None:
         return None, log1
@@ -815,8 +994,38 @@ def drive(cases, tier):
     for a, b, r in zip(mo, co, ro):
         if "error" in a or "error" in b or "error" in r:
             return None, "driver error: %r %r %r" % (a, b, r)
-        obs.append({"j": a["j"], "y": a.get("y"), "c": b.get("c"), "camel": b["camel"], "rt": r if r else None})
+        obs.append({"j": a["j"], "y": a.get("y"), "c": b.get("c"), "cy": b.get("cy"), "camel": b["camel"], "rt": r if r else None})
+    # known findings: which single unenforced clause (if any) is the sole reason spec_ok fails -- decided in Coq
+    idx = [i for i, c in enumerate(cases) if c["label"][0] == "known"]
+    if idx:
+        try:
+            decide_known([cases[i] for i in idx], [obs[i] for i in idx])
+        except RuntimeError as ex:
+            return None, "known-finding masks: " + str(ex)[-2000:]
     return obs, log1 + log2 + log3
+
+
+_KNOWN = {}
+
+
+def decide_known(cs, os_):
+    """class of each case: spec_ok fails and exactly the masked checker of that class accepts it (Exec.spec_mask_*)"""
+    checks = ("spec_ok",) + tuple(KNOWN_CLASSES)
+    res = vlib.coq_eval(ID, "C05.Exec", [encode(c, o) for c, o in zip(cs, os_)], shard=400, checks=checks, tag="k")
+    for i, (c, o) in enumerate(zip(cs, os_)):
+        cls = None
+        if i in res["spec_ok"]:
+            ok = [KNOWN_CLASSES[m] for m in KNOWN_CLASSES if i not in res[m]]
+            if len(ok) == 1:
+                cls = ok[0]
+        _KNOWN[vlib.canon(c)] = cls
+
+
+def classify(case, obs):
+    key = vlib.canon(case)
+    if key not in _KNOWN:
+        decide_known([case], [obs])
+    return _KNOWN[key]
 
 
 # ----------------------------------------------------------------------------- encode
@@ -840,8 +1049,11 @@ def c_opts(o):
     if o["range"] is not None:
         l, li, r, ri = o["range"]
         rg = "(mkrange %s %s %s %s)" % (copt(None if l is None else cZ(l)), cbool(li), copt(None if r is None else cZ(r)), cbool(ri))
-    return "(mkopts %s %s %s %s %s)" % (cbool(o["optional"]), copt(None if o["default"] is None else cstr(o["default"])),
-                                        clist([cstr(x) for x in o["options"]]), copt(rg), cbool(o["string"]))
+    dep = None
+    if o.get("dep"):
+        dep = cpair(cbool(o["dep"][0]), cstr(o["dep"][1]))
+    return "(mkopts %s %s %s %s %s %s)" % (cbool(o["optional"]), copt(None if o["default"] is None else cstr(o["default"])),
+                                           clist([cstr(x) for x in o["options"]]), copt(rg), cbool(o["string"]), copt(dep))
 
 
 def c_ty(t):
@@ -868,7 +1080,7 @@ def finfo(tok):
     return "(mkfi %s %s %s)" % (cbool(fits64), cbool(fits32), cbool(canon))
 
 
-def c_jv(d):
+def c_jv(d, depth=0):
     k = d[0]
     if k == "n":
         return "JNull"
@@ -877,10 +1089,40 @@ def c_jv(d):
     if k == "num":
         return "(JNum %s %s)" % (cstr(d[1]), finfo(d[1]))
     if k == "s":
-        return "(JStr %s)" % cstr(d[1])
+        return "(JStr %s %s)" % (cstr(d[1]), copt(None if depth > 2 else json_payload(d[1], depth)))
     if k == "a":
-        return "(JArr %s)" % clist([c_jv(x) for x in d[1]])
-    return "(JObj %s)" % clist([cpair(cstr(kv[0]), c_jv(kv[1])) for kv in d[1]])
+        return "(JArr %s)" % clist([c_jv(x, depth) for x in d[1]])
+    return "(JObj %s)" % clist([cpair(cstr(kv[0]), c_jv(kv[1], depth)) for kv in d[1]])
+
+
+class _Tok(str):
+    pass
+
+
+def _abstract(x):
+    if x is None:
+        return ["n"]
+    if isinstance(x, bool):
+        return ["b", x]
+    if isinstance(x, _Tok):
+        return ["num", str(x)]
+    if isinstance(x, str):
+        return ["s", x]
+    if isinstance(x, list) and x and x[0] == "\0obj":
+        return ["o", [[k, _abstract(v)] for k, v in x[1]]]
+    if isinstance(x, list):
+        return ["a", [_abstract(v) for v in x]]
+    raise ValueError(x)
+
+
+def json_payload(text, depth=0):
+    """oracle for encoding/json: the value a string denotes when it is a JSON text (tokens kept), else None"""
+    try:
+        v = json.loads(text, parse_int=_Tok, parse_float=_Tok, parse_constant=lambda c: (_ for _ in ()).throw(ValueError(c)),
+                       object_pairs_hook=lambda kvs: ["\0obj", kvs])
+    except ValueError:
+        return None
+    return c_jv(_abstract(v), depth + 1)
 
 
 def c_yv(d):
@@ -894,7 +1136,7 @@ def c_yv(d):
             return "(YInt %s)" % cZ(int(d[1]))
         return "(YFloat %s %s)" % (cstr(d[1]), finfo(d[1]))
     if k == "s":
-        return "(YStr %s)" % cstr(d[1])
+        return "(YStr %s %s)" % (cstr(d[1]), copt(json_payload(d[1])))
     if k == "a":
         return "(YSeq %s)" % clist([c_yv(x) for x in d[1]])
     return "(YMap %s)" % clist([cpair(cstr(kv[0]), c_yv(kv[1])) for kv in d[1]])
@@ -941,7 +1183,8 @@ def encode(case, obs):
         y = cpair(c_yv(case["doc"]), c_obs(obs["y"]))
     c = None
     if case["conf"] and obs.get("c") is not None:
-        c = cpair(c_jv(case["cdoc"]), c_obs(obs["c"]))
+        cy = c_obs(obs["cy"]) if case.get("cyaml") and obs.get("cy") is not None else None
+        c = cpair(c_jv(case["cdoc"]), c_obs(obs["c"]), copt(cy))
     keys = clist([cpair(cstr(k), cstr(v)) for k, v in zip(case["keys"], obs["camel"])])
     rt = None
     if case.get("rt"):
@@ -971,6 +1214,12 @@ def bucket(case, obs):
         out.append("yaml:" + obs["y"]["r"])
     if obs.get("c") is not None and case["conf"]:
         out.append("conf:" + obs["c"]["r"])
+    if obs.get("cy") is not None and case.get("cyaml"):
+        out.append("conf-yaml:" + obs["cy"]["r"])
+    if '"[' in case["json"] or '"null"' in case["json"]:
+        out.append("doc:from-string-array")
+    if "optional=" in json.dumps(case["shape"]):
+        out.append("tag:optional=dep")
     if len(case["label"]) > 1:
         out.append("directed:" + case["label"][1])
     kinds = set()
